@@ -11,7 +11,8 @@ def run_schema_cases(chk):
     rows = list(vlib.read_ndjson(raw))
     trace = os.path.join(chk.work, "schema_trace.ndjson")
     vlib.write_ndjson(trace, [{"schema": r["schema"], "ok": r["ok"], "presentScalars": r["presentScalars"], "checkScalars": r["checkScalars"]} for r in rows])
-    bad = vlib.trace_validate(chk, "Trace_SchemaRules", "Trace_SchemaRules.cfg", trace, len(rows), timeout=7000)
+    bad = vlib.cached_trace_validate_parallel(chk, "Trace_SchemaRules", "Trace_SchemaRules.cfg", list(vlib.read_ndjson(trace)),
+                                              ["SchemaRules.tla", "TypeCompat.tla"], group="C14-C15", parts=8, timeout=7000)
     # canary: flip the verdict of the first seed
     g = {"schema": rows[0]["schema"], "ok": rows[0]["ok"], "presentScalars": rows[0]["presentScalars"], "checkScalars": rows[0]["checkScalars"]}
     c = dict(g)
